@@ -1,6 +1,6 @@
 SPECIFICATION Spec
 CONSTANT MaxBody = 2
-CONSTANT Rich = TRUE
+CONSTANT Rich = FALSE
 VIEW View
 INVARIANT AllAnalysable
 INVARIANT Inv
